@@ -3,7 +3,6 @@ use rusty_parser::{
 };
 use rusty_variant::{V_FALSE, Variant};
 
-use crate::instruction_generator::Path;
 use crate::interpreter::arguments::{ArgumentInfo, Arguments};
 use crate::interpreter::byte_size::QByteSize;
 use crate::interpreter::handlers::allocation::allocate_built_in;
@@ -18,15 +17,11 @@ pub struct Variables {
 struct RuntimeVariableInfo {
     /// Holds the value of the variable.
     value: Variant,
-
-    /// For anonymous by ref arguments, holds a resolved path that can be used
-    /// to find the variable in the parent context.
-    arg_path: Option<Path>,
 }
 
 impl RuntimeVariableInfo {
-    pub fn new(value: Variant, arg_path: Option<Path>) -> Self {
-        Self { value, arg_path }
+    pub fn new(value: Variant) -> Self {
+        Self { value }
     }
 }
 
@@ -50,17 +45,16 @@ impl Variables {
         self.insert(Name::bare(bare_name), value);
     }
 
-    fn insert_unnamed(&mut self, value: Variant, arg_path: Option<Path>) {
+    fn insert_unnamed(&mut self, value: Variant) {
         let dummy_name = format!("{}", self.map.len());
         let name = Name::bare(BareName::new(dummy_name));
-        self.map
-            .insert(name, RuntimeVariableInfo::new(value, arg_path));
+        self.map.insert(name, RuntimeVariableInfo::new(value));
     }
 
-    pub fn insert_param(&mut self, param_name: Parameter, value: Variant, arg_path: Option<Path>) {
+    pub fn insert_param(&mut self, param_name: Parameter, value: Variant) {
         self.map.insert(
             Self::param_to_name(param_name),
-            RuntimeVariableInfo::new(value, arg_path),
+            RuntimeVariableInfo::new(value),
         );
     }
 
@@ -78,7 +72,7 @@ impl Variables {
     }
 
     pub fn insert(&mut self, name: Name, value: Variant) {
-        self.map.insert(name, RuntimeVariableInfo::new(value, None));
+        self.map.insert(name, RuntimeVariableInfo::new(value));
     }
 
     pub fn insert_dim(&mut self, dim_name: DimVar, value: Variant) {
@@ -108,7 +102,7 @@ impl Variables {
         &mut self
             .map
             .get_or_create(name, |n| {
-                RuntimeVariableInfo::new(Self::default_value_for_name(n), None)
+                RuntimeVariableInfo::new(Self::default_value_for_name(n))
             })
             .value
     }
@@ -164,14 +158,12 @@ impl Variables {
 
     pub fn apply_arguments(&mut self, arguments: Arguments) {
         for ArgumentInfo {
-            value,
-            param_name,
-            arg_path,
+            value, param_name, ..
         } in arguments.into_iter()
         {
             match param_name {
-                Some(param_name) => self.insert_param(param_name, value, arg_path),
-                None => self.insert_unnamed(value, arg_path),
+                Some(param_name) => self.insert_param(param_name, value),
+                None => self.insert_unnamed(value),
             }
         }
     }
@@ -196,12 +188,6 @@ impl Variables {
             }
             DimType::Bare => panic!("Unresolved dim"),
         }
-    }
-
-    pub fn get_arg_path(&self, index: usize) -> Option<&Path> {
-        self.map
-            .get_by_index(index)
-            .and_then(|r| r.arg_path.as_ref())
     }
 
     pub fn calculate_var_ptr(&self, name: &Name) -> usize {
@@ -229,8 +215,7 @@ impl Variables {
                 matches!(
                     value,
                     RuntimeVariableInfo {
-                        value: Variant::VArray(_),
-                        ..
+                        value: Variant::VArray(_)
                     }
                 )
             })
